@@ -83,6 +83,8 @@ func checkC15(p *Prog, r *Report) {
 				if c, isCall := ins.(*ssa.Call); isCall {
 					if sc := c.Common().StaticCallee(); sc != nil && (fullName(sc) == "fmt.Errorf" || fullName(sc) == "errors.New") {
 						reports = true
+					} else if sc != nil && smallHelper(sc) && constructsError(sc, 0) {
+						reports = true // the per-relationship checks live in a helper
 					}
 				}
 			}
@@ -119,7 +121,12 @@ func checkC15(p *Prog, r *Report) {
 			switch x := o.(type) {
 			case *ssa.Slice: // empty literal
 			case *ssa.Call:
-				if b, ok := x.Call.Value.(*ssa.Builtin); !ok || b.Name() != "append" {
+				if b, ok := x.Call.Value.(*ssa.Builtin); ok && b.Name() == "append" {
+					break
+				}
+				// a helper that threads the accumulator: every return of it is its
+				// []error parameter, possibly extended by appends
+				if g := x.Call.StaticCallee(); g == nil || !smallHelper(g) || !threadsAccumulator(g) {
 					good = false
 				}
 			case *ssa.Const:
@@ -351,3 +358,53 @@ func isOuterRel(st *istate, s string) bool {
 }
 
 var _ = types.Typ
+
+// constructsError: g (or a small helper it calls) builds an error value.
+func constructsError(g *ssa.Function, depth int) bool {
+	found := false
+	eachInstr(g, func(ins ssa.Instruction) {
+		c, ok := ins.(*ssa.Call)
+		if !ok {
+			return
+		}
+		sc := c.Common().StaticCallee()
+		if sc == nil {
+			return
+		}
+		if fullName(sc) == "fmt.Errorf" || fullName(sc) == "errors.New" {
+			found = true
+		} else if depth < 2 && smallHelper(sc) && constructsError(sc, depth+1) {
+			found = true
+		}
+	})
+	return found
+}
+
+// threadsAccumulator: every return of g is g's []error parameter or the result
+// of appends to it.
+func threadsAccumulator(g *ssa.Function) bool {
+	n := 0
+	ok := true
+	eachInstr(g, func(ins ssa.Instruction) {
+		ret, isRet := ins.(*ssa.Return)
+		if !isRet || len(ret.Results) != 1 {
+			return
+		}
+		n++
+		for _, o := range origins(ret.Results[0]) {
+			switch x := o.(type) {
+			case *ssa.Parameter:
+				if sl, isSl := x.Type().Underlying().(*types.Slice); !isSl || !isErrorType(sl.Elem()) {
+					ok = false
+				}
+			case *ssa.Call:
+				if b, isB := x.Call.Value.(*ssa.Builtin); !isB || b.Name() != "append" {
+					ok = false
+				}
+			default:
+				ok = false
+			}
+		}
+	})
+	return ok && n > 0
+}
